@@ -452,7 +452,7 @@ def jobs_c12(tier, seed):
     for k, at in rej:
         jobs.append(J(f"c12::ls_reject_{k}_at_{at}", features=f, stubbing=True, timeout_s=1200, mem_gb=16, replay="none",
                       bound=f"every list of {k} fields in which field {at} fails to parse (any other codes) -> rejected"))
-    for t, what in [("x", "'x'"), ("trailing", "'1;'"), ("256", "'256'"), ("space", "'1; 2'"), ("minus", "'-1'")]:
+    for t, what in [("x", "'x'"), ("256", "'256'"), ("space", "'1; 2'"), ("minus", "'-1'")]:
         jobs.append(J(f"c12::ls_reject_text_{t}", features=f, timeout_s=900, min_covers=1,
                       bound=f"the malformed text {what} through the real decimal parser (no stub) -> rejected"))
     return jobs
